@@ -129,6 +129,44 @@ def sweeps(tier, rng):
         for name, d in genfonts.all_generated(): yield name, d
         try: yield "generated-instructions-and-colliding-names", instr_font()
         except Exception as e: yield "generated-instructions(build failed %r)" % (e,), None
+        # edited corpus fonts: point flags that no outline reader shows (OVERLAP_SIMPLE on arbitrary points), CFF dictionary reals of
+        # small and large magnitude (printed with an exponent)
+        ttfs = [p for p in bins if p.endswith(".ttf")]; otfs = [p for p in bins if p.endswith(".otf")]
+        made = 0; cands = ttfs[:]; rng.shuffle(cands)
+        first = [p for p in ttfs if p.endswith("ttx/data/TestTTF.ttf")]
+        for p in first + cands:
+            if made >= (2 if tier == "quick" else 12): break
+            try:
+                f = TTFont(p, recalcBBoxes=False, recalcTimestamp=False)
+                if "glyf" not in f: continue
+                n = 0
+                for gn in f.getGlyphOrder():
+                    g = f["glyf"][gn]
+                    if g.numberOfContours <= 0: continue
+                    starts = [0] + [e + 1 for e in g.endPtsOfContours[:-1]]
+                    for i in range(len(g.flags)):
+                        if (i in starts and rng.chance(50)) or rng.chance(10) or i == len(g.flags) - 1:
+                            g.flags[i] |= 0x40; n += (i > 0)
+                if n < 3: continue
+                made += 1
+                b = io.BytesIO(); f.save(b); yield "edited-overlap-flags:" + corpus.rel(p), b.getvalue()
+            except Exception:
+                continue
+        for p in corpus.pick(rng, otfs, 2 if tier == "quick" else 12):
+            try:
+                f = TTFont(p, recalcBBoxes=False, recalcTimestamp=False)
+                if "CFF " not in f: continue
+                td = f["CFF "].cff.topDictIndex[0]
+                privs = [td.Private] if hasattr(td, "Private") else [fd.Private for fd in td.FDArray]
+                small = [5e-05, 1e-05, 2.5e-06, 1e-07, 0.039625, 0.00001234, 123456.5, 3e-05]
+                for pr in privs:
+                    pr.BlueScale = rng.choice(small)
+                    if rng.chance(50): pr.ExpansionFactor = rng.choice(small)
+                    if rng.chance(50): pr.BlueShift = rng.choice([7, 0.5, 1e-05])
+                if not hasattr(td, "ROS"): td.FontMatrix = [rng.choice([0.001, 0.00001, 5e-05, 0.0004882813]), 0, 0, rng.choice([0.001, 0.00001, 5e-05]), 0, 0]
+                b = io.BytesIO(); f.save(b); yield "edited-cff-reals:" + corpus.rel(p), b.getvalue()
+            except Exception:
+                continue
     def _tables_of(font):
         b = io.BytesIO(); font.save(b); r = TTFont(io.BytesIO(b.getvalue()), lazy=True)
         out = {}
@@ -141,6 +179,25 @@ def sweeps(tier, rng):
         f1.saveXML(path, **o)
         f2 = TTFont(recalcTimestamp=False, recalcBBoxes=False); f2.importXML(path)
         return f2
+    def _model(font):
+        """what the tables hold, read from the object model without going through XML: point flags, coordinates, contour ends and
+        instructions of simple glyphs; the numbers of the CFF top and private dictionaries"""
+        out = {}
+        if "glyf" in font:
+            for gn in font.getGlyphOrder():
+                g = font["glyf"][gn]
+                if g.numberOfContours > 0:
+                    out[("glyf", gn)] = (bytes(g.flags), [tuple(c) for c in g.coordinates], list(g.endPtsOfContours),
+                                         bytes(g.program.getBytecode()) if hasattr(g, "program") else b"")
+        if "CFF " in font:
+            td = font["CFF "].cff.topDictIndex[0]
+            TOP = ["FontMatrix", "FontBBox", "UnderlinePosition", "UnderlineThickness", "ItalicAngle", "StrokeWidth", "PaintType", "isFixedPitch", "CharstringType"]
+            PRIV = ["BlueValues", "OtherBlues", "FamilyBlues", "FamilyOtherBlues", "BlueScale", "BlueShift", "BlueFuzz", "StdHW", "StdVW", "StemSnapH",
+                    "StemSnapV", "ForceBold", "LanguageGroup", "ExpansionFactor", "initialRandomSeed", "defaultWidthX", "nominalWidthX"]
+            out[("CFF ", "top")] = {k: getattr(td, k, None) for k in TOP}
+            privs = [td.Private] if hasattr(td, "Private") else [fd.Private for fd in td.FDArray]
+            for i, pr in enumerate(privs): out[("CFF ", "private", i)] = {k: getattr(pr, k, None) for k in PRIV}
+        return out
     def _text(font):
         out = {}
         from fontTools.misc.xmlWriter import XMLWriter
@@ -195,6 +252,16 @@ def sweeps(tier, rng):
                                 for i_ in range(0, len(cps) - 1, 2):
                                     t_ = chr(cps[i_]) + chr(cps[i_ + 1])
                                     if bad is None and h0.shape(t_) != h1.shape(t_): bad = "text %r shapes differently after dump+import" % t_
+                            if bad is None:
+                                m0 = _model(TTFont(io.BytesIO(data), lazy=False, recalcTimestamp=False, recalcBBoxes=False)); m1 = _model(g1)
+                                for k_ in m0:
+                                    if m0[k_] != m1.get(k_):
+                                        what = ""
+                                        if k_[0] == "glyf" and m1.get(k_) and m0[k_][0] != m1[k_][0]:
+                                            what = ": point flags %s -> %s" % (m0[k_][0].hex(), m1[k_][0].hex())
+                                        elif k_[0] == "CFF " and m1.get(k_):
+                                            what = ": " + ", ".join("%s %r -> %r" % (n_, v_, m1[k_].get(n_)) for n_, v_ in m0[k_].items() if m1[k_].get(n_) != v_)[:300]
+                                        bad = "decoded content of %r changed after dump+import%s" % (k_, what); break
                             raw = TTFont(io.BytesIO(data), lazy=True).reader["head"] if "head" in tags else None
                             if bad is None and raw is not None:
                                 import struct
